@@ -12,6 +12,8 @@
 import EEM.Real
 import EEM.Model.Dst
 import EEM.Model.PredictFrame
+import EEM.Model.DstSrc
+import EEM.Bridge.DstRefine
 import Mathlib.Tactic.Linarith
 
 namespace EEM.Props.C06
@@ -81,6 +83,81 @@ theorem C06_dst_roundtrip_length : ∀ (ops : List DayOp) (pred : List ℝ),
         | cons o os => simpa [List.getLast?_cons_cons] using hlast)
     rw [ih]
     simp
+
+/-! ### The source's own algorithm (literal transcription `EEM.Model.DstSrc`) -/
+
+open EEM.Model.DstSrc EEM.Bridge.DstRefine in
+theorem okOp_iff (op : DayOp) : okOp op ↔ DayOp.ok op := by cases op <;> exact Iff.rfl
+
+open EEM.Model.DstSrc EEM.Bridge.DstRefine in
+/-- every value `_transform_dst` indexes exists, unless the LAST day repeats 23:00 (then the source raises) -/
+theorem C06_src_indexed_values_exist (p : List ℝ) : ∀ (d : List DayOp) (k : Nat),
+    p.length = 24 * (k + d.length) → (∀ op ∈ d, DayOp.ok op) → d.getLast? ≠ some (.mean 23) →
+    ∃ vals, valsAux p k d = some vals := by
+  intro d
+  induction d with
+  | nil => intro k _ _ _; exact ⟨[], rfl⟩
+  | cons op r ih =>
+    intro k hl hok hlast
+    have hlr : p.length = 24 * (k + 1 + r.length) := by simp at hl; omega
+    have hokr : ∀ op ∈ r, DayOp.ok op := fun o ho => hok o (List.mem_cons_of_mem _ ho)
+    have hlastr : r.getLast? ≠ some (.mean 23) := by
+      cases r with
+      | nil => simp
+      | cons o os => simpa [List.getLast?_cons_cons] using hlast
+    obtain ⟨vs, hvs⟩ := ih (k + 1) hlr hokr hlastr
+    cases op with
+    | none => exact ⟨vs, by simpa [valsAux] using hvs⟩
+    | interp h => exact ⟨vs, by simpa [valsAux] using hvs⟩
+    | mean h =>
+      have hh : h < 24 := hok (.mean h) (by simp)
+      have hidx : k * 24 + h + 1 < p.length := by
+        cases r with
+        | nil =>
+          have : h ≠ 23 := by intro h23; subst h23; simp at hlast
+          simp at hl; omega
+        | cons o os => simp at hl; omega
+      have h1 : ∃ a, p[k * 24 + h]? = some a := ⟨p[k * 24 + h]'(by omega), by simp⟩
+      have h2 : ∃ b, p[k * 24 + h + 1]? = some b := ⟨p[k * 24 + h + 1]'hidx, by simp⟩
+      obtain ⟨a, ha⟩ := h1
+      obtain ⟨b, hb⟩ := h2
+      exact ⟨avg a b :: vs, by simp [valsAux, interpolatedVal, ha, hb, hvs]⟩
+
+open EEM.Model.DstSrc EEM.Bridge.DstRefine in
+/-- **`_transform_dst` as written is the per-day model**: for any number of whole days and any placement of
+23- and 25-row days — except a repeated 23:00 on the last day (the source raises `IndexError`: finding C06-F4's
+neighbour) and a repeated 23:00 directly followed by a skipped 00:00 (`noClash`: two operations on one flat
+index, not produced by any zone rule) — the source's global algorithm (operations sorted by flat index,
+fence-post slices, an iterator of interpolated values) returns exactly the per-day transformation that the
+theorems above are about -/
+theorem C06_src_transform_is_per_day (p : List ℝ) (d : List DayOp)
+    (hlen : p.length = 24 * d.length) (hok : ∀ op ∈ d, DayOp.ok op) (hnc : noClash d = true)
+    (hlast : d.getLast? ≠ some (.mean 23)) :
+    transformDstSrc p (interpOf d) (meanOf d) = some (transformDst d p) := by
+  obtain ⟨vals, hv⟩ := C06_src_indexed_values_exist p d 0 (by simpa using hlen) hok hlast
+  exact transformDstSrc_eq p d vals (fun op h => (okOp_iff op).mpr (hok op h)) hlen hnc hv
+
+open EEM.Model.DstSrc EEM.Bridge.DstRefine in
+/-- hence **the source returns one value per row of the frame** -/
+theorem C06_src_one_value_per_row (p : List ℝ) (d : List DayOp)
+    (hlen : p.length = 24 * d.length) (hok : ∀ op ∈ d, DayOp.ok op) (hnc : noClash d = true)
+    (hlast : d.getLast? ≠ some (.mean 23)) :
+    ∃ out, transformDstSrc p (interpOf d) (meanOf d) = some out ∧ out.length = (d.map DayOp.rows).sum :=
+  ⟨_, C06_src_transform_is_per_day p d hlen hok hnc hlast,
+    C06_dst_roundtrip_length d p hlen hok (fun _ _ => trivial) hlast⟩
+
+/-- the hypotheses are met by an ordinary year: one skipped hour in spring, one repeated hour in autumn -/
+example : EEM.Bridge.DstRefine.noClash [.none, .interp 2, .none, .mean 1, .none] = true ∧
+    ([.none, .interp 2, .none, .mean 1, .none] : List DayOp).getLast? ≠ some (.mean 23) := by decide
+
+/-- `noClash` is a real exclusion: on a repeated 23:00 followed by a skipped 00:00 the source's sort puts the
+removal first and the removed slot comes back (one value too many) -/
+example :
+    let d : List DayOp := [.mean 23, .interp 0]
+    let p : List Nat := List.range 48
+    EEM.Bridge.DstRefine.noClash d = false ∧
+    ((EEM.Model.DstSrc.sortOps (EEM.Model.DstSrc.removeIdx (EEM.Model.DstSrc.interpOf d) ++
+        EEM.Model.DstSrc.interpIdx (EEM.Model.DstSrc.meanOf d))).map (·.2)) = [24, 24] := by decide
 
 /-- **nothing shifts before a transition**: on a skipped-hour day, the rows before the gap keep their slot -/
 theorem C06_skipped_hour_before (h : Nat) (next : Option ℝ) (p : List ℝ) (i : Nat) (hi : i < h) :
